@@ -457,6 +457,8 @@ Proof.
   - intros inl inr u f args d _ _ _ _ _ fuel acc. destruct fuel; [reflexivity|]. destruct u as [y|r|[|]]; reflexivity.
   - intros inl inr u f args ps _ _ _ fuel acc. destruct fuel; [reflexivity|]. destruct u as [y|r|[|]]; reflexivity.
   - intros inl f args ps _ _ fuel acc. destruct fuel; reflexivity.
+  - intros inl inr u e _ _ fuel acc. destruct fuel; [reflexivity|]. destruct u as [y|r|[|]]; reflexivity.
+  - intros inl e _ fuel acc. destruct fuel; reflexivity.
   - intros inl f args d _ _ _ _ fuel acc. destruct fuel; reflexivity.
   - intros inl inr c a _ _ IHa fuel acc. destruct fuel as [|fuel]; [reflexivity|]. exact (IHa fuel acc).
   - intros inl inr c a b _ _ IHa _ IHb fuel acc. destruct fuel as [|fuel]; [reflexivity|]. cbn [collect_stmt]. rewrite IHb. exact (IHa fuel acc).
